@@ -143,12 +143,13 @@ def cases(tier, seed):
             c["beyond"] = rng.random() < 0.3
             c["also_compute"] = rng.random() < 0.5
         else:
-            kind = rng.choice(("df", "df", "df", "df", "preshuffled", "series", "series_unique", "series_nunique",
+            kind = rng.choice(("df", "df", "df", "df", "preshuffled", "preshuffled", "series", "series_unique", "series_nunique",
                                "df_nunique", "index"))
             c["kind"] = kind
             c["dcols"] = rng.sample(LOWCARD, rng.choice((1, 2, 2, 3))) + (["c"] if rng.random() < 0.4 else [])
             c["subset"] = rng.choice((None, None, "first1", "first2", "some"))
-            c["keep"] = rng.choice(("first", "first", "last", False)) if rng.random() < 0.97 else False
+            c["keep"] = rng.choice(("first", "first", "last")) if rng.random() < 0.96 else False
+            c["pre"] = rng.choice(("key1", "key1", "all", "first2"))      # columns of the preceding shuffle (kind preshuffled)
             c["split_out"] = rng.choice((True, True, 1, 2, 3, 5))
             c["split_every"] = rng.choice((None, None, 2, 3, False))
             c["ignore_index"] = rng.random() < 0.2
@@ -315,6 +316,29 @@ def _all_na_partition(ddf, col):
     return "&all-NA-input-partition" if any(len(s) and bool(s.isna().all()) for s in pieces) else ""
 
 
+def _presorted_ignoring_na(ddf, col, ascending=True):
+    """input-feature predicate: the NON-NA values of ``col`` are already partition-sorted (max of partition i < min of
+    partition i+1, or > for descending; >= 2 non-empty partitions) while the column holds NA"""
+    import dask
+    import pandas as pd
+
+    pieces = [s for s in dask.compute(*ddf[col].to_delayed(), scheduler="sync") if len(s)]
+    if len(pieces) < 2 or not any(bool(s.isna().any()) for s in pieces):
+        return ""
+    vals = [s.dropna() for s in pieces]
+    if any(len(v) == 0 for v in vals):
+        return ""
+    try:
+        if isinstance(vals[0].dtype, pd.CategoricalDtype):
+            vals = [v.cat.as_ordered() for v in vals]
+        lo, hi = [v.min() for v in vals], [v.max() for v in vals]
+        ok = all(hi[i] < lo[i + 1] for i in range(len(vals) - 1)) if ascending else \
+            all(lo[i] > hi[i + 1] for i in range(len(vals) - 1))
+    except TypeError:
+        return ""
+    return "&input-presorted-by-non-NA-values" if ok else ""
+
+
 # ---- shuffle ---------------------------------------------------------------------------------------------------------
 def _shuffle(case, ctx, pdf, ddf):
     from vf.gen import frames as F
@@ -455,12 +479,17 @@ def _sort(case, ctx, pdf, ddf):
     # key with na_position="first", are mechanisms of their own (whatever the direction / dtype)
     k0 = _colkind(pdf[by[0]])
     allna = _all_na_partition(ddf, by[0]) if na0 else ""       # quantile summaries of all-NA partitions are a mechanism
+    pres = _presorted_ignoring_na(ddf, by[0], asc0) if na0 and not allna else ""   # the presorted shortcut skips NA
     if allna:
         ctx.count("sorts_with_all_na_input_partition")
+    if pres:
+        ctx.count("sorts_presorted_by_non_na_values")
     if "not-in-lexical-order" in k0:
         feat = "sort_values:first-key=%s" % k0
     elif allna:
         feat = "sort_values:first-key=%s&na%s" % (k0, allna)
+    elif pres:
+        feat = "sort_values:na-in-first-key%s" % pres
     elif na0 and case["na"] == "first":
         feat = "sort_values:na-in-first-key&na_position=first"
     else:
@@ -555,12 +584,16 @@ def _set_index(case, ctx, pdf, ddf):
         # divisions must be python-sorted (documented ValueError otherwise); no vector is both sorted and in category order
         ctx.reject("no valid division vector for an unordered categorical with non-lexical category order")
         return
+    pres = _presorted_ignoring_na(ddf, col) if hasna and not allna and mode in ("plain", "npartitions") else ""
+    if pres:
+        ctx.count("set_index_presorted_by_non_na_values")
     if "not-in-lexical-order" in ck and mode != "sorted":
         feat = efeat = "set_index:%s-column" % ck          # one mechanism whatever the mode
     else:
-        feat = "set_index:%s:%s-column%s%s" % (mode, ck, "&na-values" if hasna else "", allna)
+        feat = "set_index:%s:%s-column%s%s%s" % (mode, ck, "&na-values" if hasna else "", allna, pres)
         efeat = "set_index:%s%s" % (mode, "&%s-column&na-values%s" % (ck, allna) if hasna else
-                                    "&category-column" if ck.startswith("category") else "&bool-column" if ck == "bool" else "")
+                                    "&category-column" if ck.startswith("category") and mode == "sorted" else
+                                    "&bool-column" if ck == "bool" and mode == "sorted" else "")
     refine = None
     desc = dict(case, input_npartitions=ddf.npartitions, kwargs={k: str(v)[:120] for k, v in kw.items()})
     r_ok, r = _guard(ctx, efeat, lambda: ddf.set_index(col, **kw), desc, refine)
@@ -634,7 +667,11 @@ def _dedup(case, ctx, pdf, ddf):
         sub = {"first1": cols[:1], "first2": cols[:2], "some": cols[-1:], None: None}[case["subset"]]
         p2, d2 = pdf[cols], ddf[cols]
         if kind == "preshuffled":
-            d2 = d2.shuffle(on=(sub or cols)[:1], shuffle_method=method)
+            # shuffled on one dedup key (no second shuffle needed), on all columns, or on the first two columns (a superset
+            # of a one-column subset: equal subset keys are then NOT co-located and a second shuffle is needed)
+            pre = {"key1": (sub or cols)[:1], "all": cols, "first2": cols[:2]}[case.get("pre", "key1")]
+            d2 = d2.shuffle(on=pre, shuffle_method=method)
+            ctx.count("drop_duplicates_after_shuffle")
         if keep is False:
             try:
                 d2.drop_duplicates(subset=sub, keep=False)
